@@ -1,6 +1,7 @@
 package main
 
 import (
+	"strings"
 	"bytes"
 	"crypto/ecdh"
 	"crypto/ed25519"
@@ -80,6 +81,7 @@ type c04End struct {
 	latest  [3]time.Time // newest accepted signing time from the (claimed) sender before each message
 	conn    [3]bool      // a link to the claimed sender was registered before message 1
 	keys    [3]ed25519.PublicKey
+	lastErr error
 }
 
 func (e *c04End) feed(data []byte) (out []byte) {
@@ -112,6 +114,7 @@ func (e *c04End) feed(data []byte) (out []byte) {
 	}
 	if herr != nil {
 		e.stage = i + 1
+		e.lastErr = herr
 		return out
 	}
 	if e.handled == 3 {
@@ -505,6 +508,102 @@ func runC04(c *Ctx) error {
 		check(ea, eb, fault, target)
 		if run < 3 {
 			c.Sample(map[string]any{"cfg": fmt.Sprint(cf), "fault": fault, "message": target, "A": ea.stage, "B": eb.stage})
+		}
+	}
+	if err := c04Impostor(c); err != nil {
+		return err
+	}
+	return nil
+}
+
+// c04Relay runs one undisturbed handshake between two nodes message by message.
+func c04Relay(X, Y *rnode, xClient bool) (ex, ey *c04End, err error) {
+	// signing times have millisecond resolution and are rounded: keep consecutive connections apart
+	time.Sleep(4 * time.Millisecond)
+	sx, fx, err := X.pe.VerifNewPeeringState(xClient)
+	if err != nil {
+		return nil, nil, err
+	}
+	sy, fy, err := Y.pe.VerifNewPeeringState(!xClient)
+	if err != nil {
+		return nil, nil, err
+	}
+	dx, _ := fx.FrameDataWithMargins(0, 0)
+	dy, _ := fy.FrameDataWithMargins(0, 0)
+	ex = &c04End{n: X, st: sx, client: xClient, first: append([]byte(nil), dx...), chal: sx.Challenge(), stage: -1}
+	ey = &c04End{n: Y, st: sy, client: !xClient, first: append([]byte(nil), dy...), chal: sy.Challenge(), stage: -1}
+	toY, toX := ex.first, ey.first
+	for round := 0; round < 4; round++ {
+		var nx, ny []byte
+		if toX != nil {
+			ny = ex.feed(toX)
+		}
+		if toY != nil {
+			nx = ey.feed(toY)
+		}
+		toX, toY = nx, ny
+	}
+	return ex, ey, nil
+}
+
+// c04Impostor: sequences of connection attempts by an endpoint that never holds the private key of
+// the address P it claims — P's address with the impostor's own key, P's genuine public identity
+// signed with the impostor's key, and honest attempts under the impostor's own address in between.
+// After every attempt: the victim has not completed a handshake reporting P, and whatever its state
+// binds to P's address is P's genuine identity.
+func c04Impostor(c *Ctx) error {
+	for s, n := 0, c.Pick(10, 60); s < n; s++ {
+		w := newRWorld()
+		st := config.Store{Router: config.Router{Listen: []string{"tcp:47369"}}}
+		V, err := w.addNode("V", st, nil)
+		if err != nil {
+			return err
+		}
+		P, err := newIdentity()
+		if err != nil {
+			return err
+		}
+		I, err := w.addNode("I", st, nil)
+		if err != nil {
+			return err
+		}
+		own := *I.id // the impostor's genuine identity
+		kinds := []string{"claims-address-with-own-key", "genuine-public-identity-own-private-key", "honest-own-address"}
+		var trace []string
+		for a, na := 0, 2+c.Rng.IntN(3); a < na; a++ {
+			kind := kinds[c.Rng.IntN(len(kinds))]
+			switch kind {
+			case "claims-address-with-own-key":
+				*I.id = own
+				I.id.IP = P.IP
+			case "genuine-public-identity-own-private-key":
+				*I.id = own
+				I.id.PublicAddress = P.PublicAddress
+			default:
+				*I.id = own
+			}
+			vClient := c.Rng.IntN(2) == 0
+			ev, _, err := c04Relay(V, I, vClient)
+			*I.id = own
+			if err != nil {
+				return err
+			}
+			c.Eval()
+			c.Count("impostor:" + kind)
+			trace = append(trace, fmt.Sprintf("%s(victim %s: stage %d %v)", kind, map[bool]string{true: "dials", false: "listens"}[vClient], ev.stage, ev.lastErr))
+			c.NonTrivial(fmt.Sprintf("impostor/%s/%d", strings.Join(trace, ","), ev.stage))
+			rep := map[string]any{"attempts": trace, "claimed": P.IP.String()}
+			if ev.stage == 0 && ev.st.RemoteIP() == P.IP {
+				c.Violate("a handshake completed reporting peer address P with an endpoint that never held P's private key (attempts: "+strings.Join(trace, "; ")+")", "impostor-completed", rep)
+			}
+			if kind == "honest-own-address" && !(ev.stage == 0 && ev.st.RemoteIP() == own.IP) {
+				c.Violate("an honest handshake under the endpoint's own address did not complete after rejected attempts", "impostor-honest-rejected", rep)
+			}
+			if sess := V.st.GetSession(P.IP); sess != nil {
+				if sess.Address().IP != P.IP || !sess.Address().PublicKey.Equal(P.PublicKey) {
+					c.Violate("after a rejected handshake the router's state binds the claimed address to a key it is not derived from (attempts: "+strings.Join(trace, "; ")+")", "impostor-binding", rep)
+				}
+			}
 		}
 	}
 	return nil
